@@ -19,9 +19,13 @@ import (
 
 var errInjected = errors.New("injected I/O fault")
 
+// error values a failing stream may return: none of them is io.EOF, so none may be taken for the end of the document
+var faultErrors = []error{errInjected, io.ErrUnexpectedEOF, io.ErrClosedPipe, io.ErrNoProgress, syscall.EIO, os.ErrDeadlineExceeded}
+
 // faultReader delivers the first k bytes (in chunks) and then fails with a non-EOF error, either on its own
 // (0, err) or together with the last chunk (m>0, err)
 type faultReader struct {
+	err      error
 	data     []byte
 	k        int
 	withData bool
@@ -36,7 +40,7 @@ func (f *faultReader) Read(p []byte) (int, error) {
 	}
 	if f.pos >= f.k {
 		f.faults++
-		return 0, errInjected
+		return 0, f.err
 	}
 	n := f.k - f.pos
 	if n > len(p) {
@@ -49,7 +53,7 @@ func (f *faultReader) Read(p []byte) (int, error) {
 	f.pos += n
 	if f.pos >= f.k && f.withData {
 		f.faults++
-		return n, errInjected
+		return n, f.err
 	}
 	return n, nil
 }
@@ -137,7 +141,7 @@ func c18ReadFaults(c *fw.Ctx, d corpusDoc, sample int) *fw.Outcome {
 			if withData && k == 0 {
 				continue
 			}
-			fr := &faultReader{data: d.Data, k: k, withData: withData, chunk: fw.Pick(c.R, []int{0, 0, 512, 100})}
+			fr := &faultReader{err: fw.Pick(c.R, faultErrors), data: d.Data, k: k, withData: withData, chunk: fw.Pick(c.R, []int{0, 0, 512, 100})}
 			var sub *astisub.Subtitles
 			var err error
 			p := guard(func() { sub, err = d.Read(fr) })
@@ -155,7 +159,7 @@ func c18ReadFaults(c *fw.Ctx, d corpusDoc, sample int) *fw.Outcome {
 				if sub != nil {
 					cues = len(sub.Items)
 				}
-				o := fw.Bad(key, fmt.Sprintf("%x", d.Data), "%s reader: the stream failed at offset %d of %d (error delivered %s) but the reader returned %d cues and a nil error", d.Format, k, n, map[bool]string{false: "alone", true: "together with the last bytes"}[withData], cues)
+				o := fw.Bad(key, fmt.Sprintf("%x", d.Data), "%s reader: the stream failed with %q at offset %d of %d (error delivered %s) but the reader returned %d cues and a nil error", d.Format, fr.err, k, n, map[bool]string{false: "alone", true: "together with the last bytes"}[withData], cues)
 				return &o
 			}
 		}
@@ -264,6 +268,23 @@ func c18Files(c *fw.Ctx) *fw.Outcome {
 	// output in a missing directory
 	if err := sub.Write(filepath.Join(dir, "nodir", "out.srt")); err == nil {
 		return bad("Write into a missing directory returned a nil error")
+	}
+	// the output path is an existing directory
+	for _, ext := range []string{".srt", ".ssa", ".stl", ".ttml", ".vtt"} {
+		dpath := filepath.Join(dir, "outdir"+ext)
+		os.Mkdir(dpath, 0o755)
+		if err := sub.Write(dpath); err == nil {
+			return bad("Write onto an existing directory (outdir%s) returned a nil error", ext)
+		}
+		if haveCLI() {
+			if out, err := cli("convert", "-i", good, "-o", dpath); err == nil {
+				return bad("CLI convert onto an existing directory exited 0: %s", out)
+			}
+		}
+		if fi, err := os.Stat(dpath); err != nil || !fi.IsDir() {
+			return bad("Write onto an existing directory replaced or removed it")
+		}
+		c.Count("write_onto_directory", 1)
 	}
 	// invalid extension / nothing to write
 	if err := sub.Write(filepath.Join(dir, "out.xyz")); err != astisub.ErrInvalidExtension {
